@@ -18,7 +18,7 @@ def crop_dir(parent, name):
 
 def batch_files(parent, name):
     out = {}
-    for p in glob.glob(os.path.join(crop_dir(parent, name), "batches", "xyz-batch-*.jbdmp")):
+    for p in glob.glob(os.path.join(glob.escape(crop_dir(parent, name)), "batches", "xyz-batch-*.jbdmp")):
         i = os.path.basename(p)[len("xyz-batch-"):-len(".jbdmp")]
         out[int(i)] = p
     return out
@@ -26,7 +26,7 @@ def batch_files(parent, name):
 
 def result_files(parent, name):
     out = {}
-    for p in glob.glob(os.path.join(crop_dir(parent, name), "results", "xyz-result-*.jbdmp")):
+    for p in glob.glob(os.path.join(glob.escape(crop_dir(parent, name)), "results", "xyz-result-*.jbdmp")):
         i = os.path.basename(p)[len("xyz-result-"):-len(".jbdmp")]
         try:
             out[int(i)] = p
@@ -189,7 +189,7 @@ def run_actor(spec, workdir, timeout=180):
     import json
     import subprocess
     import pickle
-    n = len(glob.glob(os.path.join(workdir, "actor-*.spec")))
+    n = len(glob.glob(os.path.join(glob.escape(workdir), "actor-*.spec")))
     sp = os.path.join(workdir, "actor-%d.spec" % n)
     spec = dict(spec, out=os.path.join(workdir, "actor-%d.out" % n))
     with open(sp, "wb") as f:          # pickled, so that argument values keep their exact types (numpy scalars, tuples)
